@@ -240,6 +240,8 @@ for _op, _code in sorted(ARITH_OPS.items()):
         _g["instances"].append({"name": "small_pairs", "defs": dict(_d, SMALL_OPERANDS=10)})
     GROUPS.append(_g)
 META = {
+ "level": "other",
+ "explanation": 'mixed: the integer<->word conversions, sexp_bignum_hi, sexp_number_type and the fixnum fast paths of the VM arithmetic opcodes are proved for all 2^64 / 2^124 inputs; bignum add/sub/compare/normalise/fxmul and the generic sexp_add/sub/quotient/remainder entry points are bounded by operand length (up to 3 words), contents symbolic.',
  "trusted_base": ["CBMC 6.11.0 front end, goto-instrument loop-contract instrumentation, SAT back end (MiniSat)",
                   "harness/prelude.h substitutions: exact-field accessors, sign test via shift (CBMC folds (sexp_sint_t)p < 0 to false), 128-bit shim",
                   "two's-complement wrap of signed arithmetic as GCC/Clang implement it (signed-overflow check off)"],
